@@ -389,6 +389,7 @@ REGRESSION_SOURCES = [
     "{% for i in b %}{% for k in forloop %}{{ k }}{% endfor %}{% endfor %}", "{% for i in b %}{{ forloop | json }}{{ forloop | size }}{{ forloop | first }}{% endfor %}",
     "{% include a %}{% include z %}{% render 'p' for a %}", "{% translate context: a %}m{% endtranslate %}{% translate count: a %}m{% plural %}ms{% endtranslate %}",
     "{% translate %}{% endtranslate %}", "{{ l[a] }}{{ b[a] }}{{ x[a] }}",
+    "{% translate %}{{ ['a%%b'] }}{% endtranslate %}", "{% translate %}%{{ ['%'] }}%{{ ['x%%'] }}{% endtranslate %}", "{% translate %}{{ ['50%'] }} x%{% plural %}{{ ['%%'] }}{% endtranslate %}",
     "{% translate %}50%{{ x }}{% endtranslate %}", "{% translate %}%%{{ x }}%{{ y }}%(z)s{% endtranslate %}", "{% translate %}{{ [')'] }}{% endtranslate %}", "{% translate %}{{ ['a)s%('] }}%{{ x }}{% endtranslate %}",
     "{% render 'p' for (1..99999999999999999999999) %}", "{% include 'p' for (1..99999999999999999999999) %}", "{% include 'p' with (1..99999999999999999999999) %}", "{% render 'q' with (1..99999999999999999999999) as a %}",
     "{{ [a] }}{{ [y] }}", "{{ [a].b }}", "{% assign q = [a] %}{{ q }}", "{% if [a] %}{% endif %}{% for i in [a] %}{% endfor %}", "{{ [b[0]] }}{{ [x.k] | default: 1 }}",
@@ -425,7 +426,7 @@ def escape_sources(tier: str) -> list[str]:
 # ------------------------------------------------------------------ histories on a caching file-system loader
 
 FS_RENDERS = [("render", t, m) for t in ("include", "render", "top") for m in ("sync", "async")]
-FS_FAULTS = [("fault", f) for f in ("delete", "dir2file", "loop", "file2dir", "dangling", "restore")]
+FS_FAULTS = [("fault", f) for f in ("delete", "dir2file", "loop", "file2dir", "dangling", "badutf8", "restore")]
 
 
 def _rm(path: str) -> None:
@@ -463,6 +464,9 @@ def _fs_fault(root: str, what: str) -> None:
         os.mkdir(f)
     elif what == "dangling":
         os.symlink("nowhere.liquid", f)
+    elif what == "badutf8":
+        with open(f, "wb") as fd:
+            fd.write(b"[caf\xe9 {{ x }}\xff]")  # not text in the loader's encoding
 
 
 def fs_histories(tier: str) -> list[tuple]:
